@@ -3,6 +3,7 @@ import RedisGoModel.Driver.Glob
 import RedisGoModel.Driver.Parser
 import RedisGoModel.Driver.Exec
 import RedisGoModel.Driver.Serve
+import RedisGoModel.Driver.Apply
 /-! Correspondence driver: reads one observed operation per line on stdin, recomputes it with the model, prints
     `MISMATCH <lineno> <detail>` for every disagreement and a final `SUMMARY` line. -/
 open Driver
@@ -14,6 +15,7 @@ structure St where
   unk : Nat := 0
   ex : ExecSt := {}
   sv : ServeSt := {}
+  ap : ApplySt := {}
 
 partial def loop (h : IO.FS.Stream) (st : St) : IO St := do
   let line ← h.getLine
@@ -26,7 +28,9 @@ partial def loop (h : IO.FS.Stream) (st : St) : IO St := do
   let st := { st with ex := ex' }
   let (sv', svv) := if exv.isNone then serveLine st.sv fs else (st.sv, none)
   let st := { st with sv := sv' }
-  match ((exv.orElse fun _ => svv).orElse fun _ => globLine fs).orElse (fun _ => parserLine fs) with
+  let (ap', apv) := if exv.isNone && svv.isNone then applyLine st.ap fs else (st.ap, none)
+  let st := { st with ap := ap' }
+  match (((exv.orElse fun _ => svv).orElse fun _ => apv).orElse fun _ => globLine fs).orElse (fun _ => parserLine fs) with
   | some (.ok b) => loop h { st with n := n, pos := st.pos + (if b then 1 else 0) }
   | some (.error e) =>
     IO.println s!"MISMATCH {n} {e} :: {line}"
